@@ -149,6 +149,19 @@ def gen(rng, tier, idx):
     scn["verbose"] = rng.chance(6)
     scn["debug"] = []
     scn["opt_order"] = rng.below(1 << 30)         # the two runs give the options in different (seeded) orders
+    if scn.get("script") is not None and rng.chance(8):
+        # the script as bracketed text, padded with blanks to a line length at a buffer-size boundary; the same text
+        # is used for the interactive reference, for stdin and for argv, so how it maps to bytes does not matter here
+        toks = []
+        for _ in range(rng.range(1, 8)):
+            toks.append(rng.choice(["OP_1", "OP_2", "OP_ADD", "OP_DUP", "OP_DROP", "7", "0x1122334455667788", "OP_SWAP", "OP_3", "OP_EQUAL", "OP_NOP", "OP_SIZE"]))
+        body = " ".join(toks)
+        L = rng.choice([1022, 1023, 1024, 1025, 4095, 4096, 4097, 8191, 8192, 65533, 65534, 65535, 65536, 65537, 131069, 131070, 131071])
+        pad = max(0, L - len(body) - 2)
+        scn["script_text"] = "[" + body + " " * pad + "]"
+        scn["script"] = None
+        scn["stack"] = []
+        scn["stdin_fault"] = rng.choice([None, {"kind": "EXTRA_LINES", "extra": rng.choice(["[OP_7]\n", "x\n", "\n"]), "chunks": []}, {"kind": "CRLF_EXTRA", "extra": "[OP_7]\n"}])
     return scn
 
 
@@ -206,6 +219,8 @@ def world_for(scn, cfg, stdin_fault=None, verbose=False):
     w = session.build_world(s2, sched=[], faults=False)
     if pipe_in:
         script_txt = "0x" + (scn.get("script") or "") if scn.get("script") is not None else ""
+        if scn.get("script_text") is not None:
+            script_txt = scn["script_text"]
         data = script_txt + "\n"
         f = stdin_fault or {}
         k = f.get("kind")
@@ -225,6 +240,8 @@ def world_for(scn, cfg, stdin_fault=None, verbose=False):
         elif k == "EXTRA_LINES":
             data = script_txt + "\n" + f.get("extra", "")
             w["stdin"]["chunks"] = list(f.get("chunks", []))
+        elif k == "CRLF_EXTRA":
+            data = script_txt + "\r\n" + f.get("extra", "")
         w["stdin"]["data"] = data
     return w
 
